@@ -2,7 +2,7 @@ SPECIFICATION Spec
 CONSTANTS
   MaxCalls = 4
   MaxLive = 2
-  Payloads = {"empty", "one", "html", "large"}
+  Payloads = {"empty", "one", "html", "large", "partial"}
 VIEW View
 INVARIANTS UniqueIds Emit
 CHECK_DEADLOCK FALSE
